@@ -47,7 +47,7 @@ func verifyFunction(p *Program, fn *ssa.Function, c *FuncContract, emit func(*Ob
 		}
 	}
 	st := &State{fe: fe, heap: map[string]Term{}, locals: map[*ssa.Alloc]SVal{}, vals: map[ssa.Value]SVal{},
-		binds: map[string]Binding{}, facts: map[string]bool{}, callCnt: map[string]int{}}
+		binds: map[string]Binding{}, facts: map[string]bool{}, callCnt: map[string]int{}, callLog: map[string]callRec{}}
 	fe.addPrelude("now0", "(declare-const now0 Int)")
 	st.now = Term{"now0", SInt}
 	fe.entryNow = st.now
@@ -295,6 +295,10 @@ func (fe *FnExec) evalModLoc(env *Env, ml ModLoc) ([]modEntry, error) {
 		switch v := x.(type) {
 		case IfaceV:
 			ref, owner = v.Ref, typeKey(xt)
+		case LocV:
+			ref = v.Ref
+			o, s, _, _ := structInfo(v.T)
+			owner, stt = o, s
 		case Scalar:
 			ref = v.T
 			o, s, _, ok := structInfo(xt)
@@ -448,6 +452,9 @@ func (fe *FnExec) ghostAssign(st *State, old *State, ga GhostAssign, extra map[s
 		switch v := x.(type) {
 		case IfaceV:
 			ref, owner = v.Ref, typeKey(xt)
+		case LocV:
+			o, _, _, _ := structInfo(v.T)
+			ref, owner = v.Ref, o
 		case Scalar:
 			o, _, _, ok := structInfo(xt)
 			if !ok {
@@ -799,6 +806,7 @@ func (fe *FnExec) get(st *State, v ssa.Value) SVal {
 
 func (fe *FnExec) funcRef(f *ssa.Function) Term {
 	name := fe.uninterp("fn."+shortFn(f.String()), nil, SInt)
+	fe.addPrelude("fnnz:"+name, "(assert (not (= "+name+" 0)))")
 	return Term{name, SInt}
 }
 
@@ -872,8 +880,21 @@ func (fe *FnExec) step(st *State, in ssa.Instruction) {
 			st.vals[x] = Scalar{r}
 			return
 		}
-		if _, isArr := et.Underlying().(*types.Array); isArr {
-			fe.fail("%s: local array %s unsupported", fe.pos(x.Pos()), et)
+		if at, isArr := et.Underlying().(*types.Array); isArr {
+			// an array object is modelled as a fresh backing array (used for varargs)
+			arr := st.newRef("arr")
+			if !isStructByValue(at.Elem()) {
+				if cs, err := compsOf(at.Elem()); err == nil {
+					for _, cp := range cs {
+						key := elemKey(at.Elem()) + cp.suffix
+						h := st.heapArr(key, SArray(SInt, SArray(SInt, cp.sort)))
+						zero := Term{"((as const (Array Int " + cp.sort.String() + ")) " + zeroTerm(cp.sort).S + ")", SArray(SInt, cp.sort)}
+						st.setHeap(key, Store(h, arr, zero))
+					}
+				}
+			}
+			st.vals[x] = Scalar{arr}
+			return
 		}
 		z, err := zeroVal(et)
 		if err != nil {
@@ -911,6 +932,13 @@ func (fe *FnExec) step(st *State, in ssa.Instruction) {
 	case *ssa.IndexAddr:
 		base := fe.get(st, x.X)
 		idx := fe.get(st, x.Index).(Scalar).T
+		if pt, isPtr := x.X.Type().Underlying().(*types.Pointer); isPtr {
+			at := pt.Elem().Underlying().(*types.Array)
+			ref := base.(Scalar).T
+			fe.safety(st, And(Ge(idx, IntLit(0)), Lt(idx, IntLit(at.Len()))), x, "index")
+			st.vals[x] = AddrV{Kind: "elem", Arr: ref, Idx: idx, ElemT: at.Elem()}
+			return
+		}
 		sl, ok := base.(SliceV)
 		if !ok {
 			fe.fail("%s: IndexAddr on %T (arrays unsupported)", fe.pos(x.Pos()), base)
@@ -969,8 +997,8 @@ func (fe *FnExec) step(st *State, in ssa.Instruction) {
 				st.vals[x] = IfaceV{code, vv.T}
 			} else {
 				// boxed non-integer scalar: payload id by an injective box function
-				name := fe.uninterp("box."+vv.T.Sort.Name, []Term{vv.T}, SInt)
-				st.vals[x] = IfaceV{code, App(SInt, name, vv.T)}
+				bx, _ := fe.boxFuncs(vv.T.Sort)
+				st.vals[x] = IfaceV{code, App(SInt, bx, vv.T)}
 			}
 		case StructV:
 			fl := flatten(vv)
@@ -1310,6 +1338,11 @@ func rangeFactOrTrue(v Term, t types.Type) Term {
 
 func (fe *FnExec) slice(st *State, x *ssa.Slice) {
 	base := fe.get(st, x.X)
+	if pt, isPtr := x.X.Type().Underlying().(*types.Pointer); isPtr {
+		if at, isArr := pt.Elem().Underlying().(*types.Array); isArr {
+			base = SliceV{base.(Scalar).T, IntLit(0), IntLit(at.Len()), IntLit(at.Len())}
+		}
+	}
 	sl, ok := base.(SliceV)
 	if !ok {
 		if s, isStr := base.(Scalar); isStr && s.T.Sort == SStr && fe.Mode == "permissive" {
@@ -1357,8 +1390,8 @@ func (fe *FnExec) typeAssert(st *State, x *ssa.TypeAssert) {
 	case err == nil && len(cs) == 1 && cs[0].sort == SInt:
 		payload = Scalar{v.Ref}
 	case err == nil && len(cs) == 1:
-		name := fe.uninterp("unbox."+cs[0].sort.Name, []Term{v.Ref}, cs[0].sort)
-		payload = Scalar{App(cs[0].sort, name, v.Ref)}
+		_, un := fe.boxFuncs(cs[0].sort)
+		payload = Scalar{App(cs[0].sort, un, v.Ref)}
 	default:
 		fv, err2 := st.freshValue("unbox", x.AssertedType)
 		if err2 != nil {
